@@ -7,6 +7,9 @@ the monitor never rejects, the pending counter equals the number of tasks in a p
 completed shutdown means that no worker is alive.  Helper lemmas only; the property theorems are in
 `Hive/Props/C16.lean`.
 -/
+set_option linter.unusedSimpArgs false
+set_option linter.unusedVariables false
+
 namespace Hive.WP
 open Hive.Conc
 
@@ -406,5 +409,85 @@ variable (m : Mon) (t : Nat) (x : MT) (p : Params) (e : Ev) (s : St)
 @[simp] theorem emit_sdcalls : (emit p e s).sdcalls = s.sdcalls := rfl
 theorem emit_mon : (emit p e s).mon = s.mon.bind (fun m => monStep p.cancel m e) := rfl
 end proj
+
+
+theorem monUpd_same {m : Mon} {l : List Task} {t : Nat} {x : Task} (y : Task) (hm : m.tasks = l.map absT) (ht : l[t]? = some x)
+    (habs : absT y = absT x) (h1 : fUp y = fUp x) (h2 : fDn y = fDn x) (h3 : fRej y = fRej x) (h4 : fRs y = fRs x)
+    (h5 : fRe y = fRe x) (pend : Nat) (hp : m.ctr = pend) : MonUpd m m t x y pend := by
+  refine ⟨?_, hp, by rw [h1], by rw [h2], by rw [h3], by rw [h4], by rw [h5], rfl, rfl, rfl⟩
+  rw [habs]; exact (set_same _ _ _ (by rw [hm]; simp [ht])).symm
+
+/-- `Submit`'s steps. -/
+theorem pres_submitStep {p : Params} {s : St} {t : Nat} {r : St × Bool} (h : SInv p s)
+    (hr : r ∈ submitStep p s t) : Pres p s r.1 ∧ r.1.workers = s.workers ∧ r.1.sdcalls = s.sdcalls := by
+  unfold submitStep at hr
+  cases ht : s.tasks[t]? with
+  | none => simp [ht] at hr
+  | some x =>
+    obtain ⟨ph, ret, kids⟩ := x
+    simp only [ht] at hr
+    cases ret with
+    | true => simp at hr
+    | false =>
+      simp only [Bool.false_eq_true, if_false] at hr
+      have hR := fun m (hm : s.mon = some m) (R : MonRel p s m) => R
+      cases ph
+      case fresh =>
+        by_cases hw : s.writer = true
+        · simp [hw] at hr
+        · by_cases hrun : s.running = true
+          · simp [hw, hrun] at hr; subst hr
+            rw [setPhase_eq ht]
+            refine ⟨sinv_task_update (y := ⟨.window, false, kids⟩) h ht rfl rfl rfl rfl rfl rfl rfl (by simp [fPend, Phase.pending]) (by simp [fCanc, Phase.canc]) ?_, rfl, rfl⟩
+            intro m hm R
+            exact ⟨m, hm, monUpd_same ⟨.window, false, kids⟩ R.tasks ht rfl rfl rfl rfl rfl rfl _ R.ctr⟩
+          · simp [hw, hrun] at hr; subst hr
+            rw [setPhase_eq ht]
+            refine ⟨sinv_task_update (y := ⟨.rejected, false, kids⟩) h ht rfl rfl rfl rfl rfl rfl rfl (by simp [fPend, Phase.pending]) (by simp [fCanc, Phase.canc]) ?_, rfl, rfl⟩
+            intro m hm R
+            exact ⟨m, hm, monUpd_same ⟨.rejected, false, kids⟩ R.tasks ht rfl rfl rfl rfl rfl rfl _ R.ctr⟩
+      case rejected =>
+        simp at hr; subst hr
+        rw [setReturned_eq ht]
+        refine ⟨sinv_task_update (y := ⟨.rejected, true, kids⟩) h ht rfl rfl rfl rfl rfl rfl rfl (by simp [fPend, Phase.pending]) (by simp [fCanc, Phase.canc]) ?_, rfl, rfl⟩
+        intro m hm R
+        have hg := getT_abs R.tasks ht
+        have hlt : t < m.tasks.length := by rw [R.tasks]; simpa using lt_of_get ht
+        refine ⟨_, by simp [emit, hm, monStep, hlt, hg, absT, Phase.started]; rfl, ?_⟩
+        exact ⟨by simp [setT, hg, absT, Phase.isRej, Phase.started, Phase.ended], R.ctr, by simp [fUp, Phase.upd], by simp [fDn, Phase.dnd],
+          by simp [fRej, Phase.isRej], by simp [fRs, Phase.started], by simp [fRe, Phase.ended], rfl, rfl, rfl⟩
+      case window =>
+        simp at hr; subst hr
+        rw [setPhase_eq ht]
+        refine ⟨sinv_task_update (y := ⟨.counted, false, kids⟩) h ht rfl rfl rfl rfl rfl rfl rfl (by simp [fPend, Phase.pending, emit]) (by simp [fCanc, Phase.canc]) ?_, rfl, rfl⟩
+        intro m hm R
+        have hlen : m.tasks.length = s.tasks.length := by rw [R.tasks]; simp
+        have hcond : m.ups + m.rejs < m.tasks.length := by
+          rw [R.ups, R.rejs, hlen]
+          exact countP_add_lt_of_get fUp fRej s.tasks t _ ht
+            (by intro a; cases a with | mk ph r k => cases ph <;> simp [fUp, fRej, Phase.upd, Phase.isRej]) rfl rfl
+        refine ⟨_, by simp [emit, hm, monStep, hcond, R.ctr]; rfl, ?_⟩
+        refine ⟨?_, rfl, by simp [fUp, Phase.upd], by simp [fDn, Phase.dnd],
+          by simp [fRej, Phase.isRej], by simp [fRs, Phase.started], by simp [fRe, Phase.ended], rfl, rfl, rfl⟩
+        exact (set_same _ _ _ (by rw [R.tasks]; simp [ht]; rfl)).symm
+      case counted =>
+        by_cases hsh : s.stackHeld = true
+        · simp [hsh] at hr
+        · simp [hsh] at hr; subst hr
+          rw [setPhase_eq ht]
+          refine ⟨sinv_task_update (y := ⟨.queued, false, kids⟩) h ht rfl rfl rfl rfl rfl rfl rfl (by simp [fPend, Phase.pending]) (by simp [fCanc, Phase.canc]) ?_, rfl, rfl⟩
+          intro m hm R
+          exact ⟨m, hm, monUpd_same ⟨.queued, false, kids⟩ R.tasks ht rfl rfl rfl rfl rfl rfl _ R.ctr⟩
+      all_goals
+        simp at hr; subst hr
+        rw [setReturned_eq ht]
+        refine ⟨sinv_task_update (y := ⟨_, true, kids⟩) h ht rfl rfl rfl rfl rfl rfl rfl (by simp [fPend, Phase.pending]) (by simp [fCanc, Phase.canc]) ?_, rfl, rfl⟩
+        intro m hm R
+        have hg := getT_abs R.tasks ht
+        have hlt : t < m.tasks.length := by rw [R.tasks]; simpa using lt_of_get ht
+        refine ⟨_, by simp [emit, hm, monStep, hlt, hg, absT]; rfl, ?_⟩
+        exact ⟨by simp [setT, hg, absT, Phase.isRej, Phase.started, Phase.ended], R.ctr, by simp [fUp, Phase.upd], by simp [fDn, Phase.dnd],
+          by simp [fRej, Phase.isRej], by simp [fRs, Phase.started], by simp [fRe, Phase.ended], rfl, rfl, rfl⟩
+
 
 end Hive.WP
